@@ -23,7 +23,8 @@ RULE = ("meshes over all topology families of C01 (grids, closed surfaces, non-m
         "properties, trailing bytes). The number text alone: printed characters for bit patterns over the whole float32 range "
         "(denormals, binade and 10^k boundaries, buffer limit, FLT_MAX, inf, nan) and parser::ParseFloat on arbitrary tokens "
         "(decimals, exponents incl. int32 wrap, long digit strings, inf/nan spellings, malformed). draco_encoder/draco_decoder run on temporary files with quantization disabled. "
-        "non-trivial = distinct op line")
+        "non-trivial = distinct op line"
+        '; writer histories whose first call fails')
 THEOREM_BACKED = ("stl_roundtrip (full), ply_roundtrip (full on float32/int32 positions, float32 normals, uint8 colours), "
                   "obj_roundtrip / obj_connectivity_roundtrip / obj_seams_exact / obj_precision (meshes with >= 1 face) and "
                   "obj_pointcloud_roundtrip (point clouds, face-less meshes), all relative to the number codec; the number codec "
